@@ -186,6 +186,17 @@ def r19_roundtrip(ctx):
                         why = f'read {g!r}, written {e!r}'
             ctx.require(ok, 'R19.1' if name in ('mixed', 'no-sysex') else 'R19.2', inst, w, why, construct=cons + f'::{name}')
             ent = ai.fs.get('f.syx')
+            if ent is not None and not plaintext:
+                # what reached the file: the encodings of the sysex messages and nothing else (other messages are dropped on writing)
+                flat = []
+                for ch in ent['chunks']:
+                    flat.extend(ch.items if isinstance(ch, AList) else list(ch) if isinstance(ch, (list, tuple, bytes, bytearray)) else [ch])
+                exp = []
+                for x in want:
+                    exp.extend([0xf0] + list(x.attrs['data'].items) + [0xf7])
+                ctx.require(len(flat) == len(exp) and all(wire.value_equal(a, b) for a, b in zip(flat, exp)), 'R19.1', f'{inst}.file-content', ctx.where(wr),
+                            f'the binary file holds {smf.describe(flat)}; the sysex messages of the list encode to {smf.describe(exp)}',
+                            construct=f'{wr.qname}::content(binary)')
             ctx.require(ent is not None and ('b' in ent['mode']) == (not plaintext), 'R19.2', f'{inst}.mode', ctx.where(wr),
                         f'file opened with mode {ent["mode"] if ent else None!r}', construct=f'{wr.qname}::mode({"text" if plaintext else "binary"})')
             for q in ai.inlined:
